@@ -79,3 +79,30 @@ impl LuaIndex for LuaFlowIndex {
         self.signature_cast_cache.clear();
     }
 }
+
+#[cfg(feature = "verif-hooks")]
+impl LuaFlowIndex {
+    pub(crate) fn verif_sizes(&self) -> Vec<(&'static str, usize)> {
+        vec![
+            ("file_flow_tree", self.file_flow_tree.len()),
+            ("signature_cast_cache", self.signature_cast_cache.len()),
+            (
+                "signature_cast_cache.items",
+                self.signature_cast_cache.values().map(|v| v.len()).sum(),
+            ),
+        ]
+    }
+
+    pub(crate) fn verif_file_refs(&self, file_id: FileId) -> Vec<(&'static str, usize)> {
+        vec![
+            (
+                "file_flow_tree",
+                self.file_flow_tree.contains_key(&file_id) as usize,
+            ),
+            (
+                "signature_cast_cache",
+                self.signature_cast_cache.contains_key(&file_id) as usize,
+            ),
+        ]
+    }
+}
